@@ -2,6 +2,8 @@ use crate::report::{Ctx, Report};
 use serde_json::Value as J;
 
 pub mod c01;
+pub mod c17;
+pub mod c20;
 pub mod c10;
 pub mod c09;
 pub mod c08;
@@ -13,6 +15,8 @@ pub fn run(ctx: &Ctx, rep: &mut Report) -> bool {
     crate::node::record_panic_locations();
     match ctx.property.as_str() {
         "C01" => c01::run(ctx, rep),
+        "C17" => c17::run(ctx, rep),
+        "C20" => c20::run(ctx, rep),
         "C10" => c10::run(ctx, rep),
         "C09" => c09::run(ctx, rep),
         "C08" => c08::run(ctx, rep),
@@ -28,6 +32,8 @@ pub fn replay(ctx: &Ctx, prop: &str, engine: &str, case: &J) -> Result<Option<(S
     crate::node::record_panic_locations();
     match prop {
         "C01" => c01::replay(ctx, engine, case),
+        "C17" => c17::replay(ctx, engine, case),
+        "C20" => c20::replay(ctx, engine, case),
         "C10" => c10::replay(ctx, engine, case),
         "C09" => c09::replay(ctx, engine, case),
         "C08" => c08::replay(ctx, engine, case),
